@@ -27,6 +27,13 @@ pub fn cfg_for(case: u64) -> GenCfg {
             cfg.srcfile_pct = 30;
             cfg.inline_pct = 30;
         }
+        3 => {
+            // few classes with many members in mixed name order (orderings that
+            // only go wrong beyond small-slice thresholds)
+            cfg.max_blocks = 2;
+            cfg.max_items = 48;
+            cfg.inline_pct = 25;
+        }
         _ => {}
     }
     cfg
@@ -35,7 +42,14 @@ pub fn cfg_for(case: u64) -> GenCfg {
 pub fn run(ctx: &Ctx, rep: &mut Reporter) {
     for case_idx in ctx.case_range() {
         let mut rng = ctx_rng(ctx, case_idx);
-        let ast = Gen::new(&mut rng, cfg_for(case_idx)).ast();
+        let ast = if case_idx % 101 == 7 && !ctx.slow() {
+            // one obfuscated method with hundreds of applicable entries
+            rep.count("huge_group_asts", 1);
+            let n = 257 + rng.below(400);
+            pgvcore::ast::huge_group_ast(&mut rng, n)
+        } else {
+            Gen::new(&mut rng, cfg_for(case_idx)).ast()
+        };
         if !is_representable(&ast) {
             rep.count("skipped_unrepresentable", 1);
             continue;
@@ -93,6 +107,9 @@ pub fn check_variant(text: &[u8], vname: &str, model: &Model<'_>, names: &Names,
         if !exp.is_empty() {
             rep.distinct(q_fp(base, c, me, l, file.is_some(), None));
             rep.count("nonempty_expected", 1);
+            if exp.len() > 256 {
+                rep.count("answers_with_more_than_256_frames", 1);
+            }
         }
         for which in 0..3 {
             match which {
